@@ -32,6 +32,19 @@ def execOp (op : String) (a : List Int) : Option (Option String) :=
       let l ← modelLimit y m d h mi s g p
       let yr ← decStartYear l k
       pure s!"{decStartAge l k} {decEndAge l k} {decPillar l k} {yr}"
+  -- the remaining getters of ChildLimit / DecadeFortune(k) / Fortune(k): birth instant and gender as kept, the eight characters,
+  -- the (deprecated) lunar-year getters = lunar year of birth + (end year - birth year) (+ 10k, + 10k + 9, + k), the sexagenary
+  -- start / end years, the indices of the derived fortunes
+  | "limit.more", [y, m, d, h, mi, s, g, p, k] => some <| do
+      let l ← modelLimit y m d h mi s g p
+      let r ← Lunar.ofSolar E y m d
+      let bY := l.start.day.1
+      let ey := l.stop.day.1
+      let base := r.1.y + ey - bY
+      let lyOk := fun (v : Int) => decide (-1 ≤ v ∧ v ≤ 9999)
+      if !(lyOk base && lyOk (base + k * 10) && lyOk (base + k * 10 + 9) && lyOk (base + k) && lyOk bY && lyOk ey
+           && lyOk (ey + k * 10) && lyOk (ey + k * 10 + 9)) then none
+      pure s!"{fmt3 l.start.day} {l.start.h} {l.start.mi} {l.start.s} {g} {l.ec.year} {l.ec.month} {l.ec.day} {l.ec.hour} {base} {bY} {ey} 0 -1 0 {base + k * 10} {base + k * 10 + 9} {ey + k * 10 + 9} {k * 10} {base + k} {ey} {ey}"
   | "fnext", [y, m, d, h, mi, s, g, p, k, n] => some <| do
       let l ← modelLimit y m d h mi s g p
       pure s!"{stepIndex k n} {fortAge l (stepIndex k n)} {fortPillar l (stepIndex k n)}"
@@ -104,6 +117,7 @@ def yearOk (y : Int) : Bool := decide (-1 ≤ y ∧ y ≤ 9999)
 
 def specOp (op : String) (a : List Int) : Option (Option String) :=
   match op, a with
+  | "limit.more", _ => execOp op a
   | "limit", [y, m, d, h, mi, s, g, p] => some <| (specLimit y m d h mi s g p).map fmtSpec
   | "fortune", [y, m, d, h, mi, s, g, p, k] => some <| do
       let l ← specLimit y m d h mi s g p
